@@ -40,6 +40,8 @@ type concJob struct {
 
 // concRound runs the jobs sequentially, then concurrently on `workers` goroutines sharing the same
 // parsers, profiles and base URL values, and compares. It is the body of the race-detector run.
+var concJobIDs []string // identities of the jobs of the last round (for the coverage counts)
+
 func concRound(seed uint64, round int, workers int) (njobs int, diffs []string) {
 	r := NewRng(seed).Fork(round)
 	parsers := []url.Parser{url.NewParser(), url.NewParser(url.WithReportValidationErrors()), url.NewParser(url.WithLaxHostParsing(), url.WithCollapseConsecutiveSlashes()),
@@ -173,6 +175,10 @@ func concRound(seed uint64, round int, workers int) (njobs int, diffs []string) 
 	if tableFingerprint() != fp {
 		diffs = append(diffs, "a package-level table or predefined profile changed during the concurrent run")
 	}
+	concJobIDs = concJobIDs[:0]
+	for _, j := range jobs {
+		concJobIDs = append(concJobIDs, fmt.Sprintf("%d|%d|%d|%s", j.kind, j.parser, j.base, j.input))
+	}
 	return len(jobs) * workers, diffs
 }
 
@@ -201,6 +207,13 @@ func init() {
 				c.evals += n
 				c.mu.Unlock()
 				c.Count(fmt.Sprintf("round %d", r), true, "in-process round")
+				for _, id := range concJobIDs {
+					c.mu.Lock()
+					k := h64(id)
+					c.sigs[k] = true
+					c.nontriv[k] = true
+					c.mu.Unlock()
+				}
 				for _, d := range diffs {
 					c.Report(Finding{Class: "violation", What: "concurrent call returned something else than alone: " + d, Case: Case{Kind: "conc", Family: "in-process", Index: r}})
 				}
